@@ -47,11 +47,16 @@ type RunResult struct {
 	Leaked         []string
 	Requests       []ReqLog
 	SecondValue    bool // a second value could be received from Wait()
+	Stopped        bool // the harness stopped the run through RunOpts.Stop
 	Wall           time.Duration
 }
 
 // RunOpts configures a client execution.
 type RunOpts struct {
+	// Transport, when set, is used instead of Server (no request log, no request hooks)
+	Transport http.RoundTripper
+	// Stop, when set, ends the run (the client is closed) when it is closed
+	Stop        <-chan struct{}
 	URI         string
 	Server      *Server
 	OnTracksErr error
@@ -98,7 +103,19 @@ func codecName(c codecs.Codec) string {
 func RunClient(o RunOpts) *RunResult {
 	res := &RunResult{}
 	t0 := time.Now()
-	o.Server.ResetClock(t0)
+	var rt http.RoundTripper = o.Transport
+	if o.Server != nil {
+		o.Server.ResetClock(t0)
+		if rt == nil {
+			rt = o.Server
+		}
+	}
+	reqsSeen := func() int {
+		if o.Server == nil {
+			return 0
+		}
+		return len(o.Server.Requests())
+	}
 	// goroutines of earlier clients of this process (left behind by a case that already failed)
 	// are not this client's
 	preexisting := map[int64]bool{}
@@ -125,7 +142,7 @@ func RunClient(o RunOpts) *RunResult {
 	}
 	c = &gohlslib.Client{
 		URI:                       o.URI,
-		HTTPClient:                &http.Client{Transport: o.Server},
+		HTTPClient:                &http.Client{Transport: rt},
 		OnDownloadPrimaryPlaylist: func(string) {},
 		OnDownloadStreamPlaylist:  func(string) {},
 		OnDownloadSegment:         func(string) {},
@@ -163,7 +180,7 @@ func RunClient(o RunOpts) *RunResult {
 				for k := range data {
 					cp[k] = append([]byte{}, data[k]...)
 				}
-				res.Units[i] = append(res.Units[i], Delivered{NoDTS: noDTS, PTS: pts, DTS: dts, Data: cp, Abs: abs, AbsOK: ok, At: time.Since(t0), ReqsSeen: len(o.Server.Requests())})
+				res.Units[i] = append(res.Units[i], Delivered{NoDTS: noDTS, PTS: pts, DTS: dts, Data: cp, Abs: abs, AbsOK: ok, At: time.Since(t0), ReqsSeen: reqsSeen()})
 				delivered++
 				d := delivered
 				mu.Unlock()
@@ -194,7 +211,7 @@ func RunClient(o RunOpts) *RunResult {
 		}
 		return o.OnTracksErr
 	}
-	if o.CloseAtRequest >= 0 {
+	if o.CloseAtRequest >= 0 && o.Server != nil {
 		prev := o.Server.OnRequest
 		o.Server.OnRequest = func(n int, path string) {
 			if prev != nil {
@@ -213,6 +230,7 @@ func RunClient(o RunOpts) *RunResult {
 	if maxWait == 0 {
 		maxWait = 20 * time.Second
 	}
+	stopCh := o.Stop
 	select {
 	case err := <-c.Wait():
 		mu.Lock()
@@ -220,6 +238,18 @@ func RunClient(o RunOpts) *RunResult {
 		mu.Unlock()
 		res.WaitErr = err
 		res.WaitReturned = true
+	case <-stopCh:
+		doClose()
+		select {
+		case err := <-c.Wait():
+			mu.Lock()
+			waited = true
+			mu.Unlock()
+			res.WaitErr = err
+			res.Stopped = true
+		case <-time.After(o.afterClose()):
+			res.WaitErr = fmt.Errorf("HARNESS: Wait() yields nothing even %v after Close", o.afterClose())
+		}
 	case <-time.After(maxWait):
 		// the client keeps running: close it and require termination
 		doClose()
@@ -281,7 +311,9 @@ func RunClient(o RunOpts) *RunResult {
 		}
 	}
 	mu.Lock()
-	res.Requests = o.Server.Requests()
+	if o.Server != nil {
+		res.Requests = o.Server.Requests()
+	}
 	mu.Unlock()
 	res.Wall = time.Since(t0)
 	return res
